@@ -350,6 +350,36 @@ func Enumerate[C any](t *testing.T, id, check string, opts Opts, cases func(yiel
 	})
 }
 
+// ProductGoroutines returns the stacks of the goroutines that are executing code of the
+// repository under test (a frame whose function lives under its module path), except those that
+// contain one of the given ignore markers (e.g. a hub loop the harness itself keeps running). A
+// goroutine count alone cannot tell a block that never ended from a goroutine of the runtime,
+// the test framework or the harness that happened to be alive at that instant.
+func ProductGoroutines(ignore ...string) []string {
+	buf := make([]byte, 1<<20)
+	buf = buf[:runtime.Stack(buf, true)]
+	var out []string
+	for _, g := range strings.Split(string(buf), "\n\n") {
+		if !strings.Contains(g, "github.com/glyphlang/glyph/") {
+			continue
+		}
+		skip := strings.Contains(g, "zz_verif_") || strings.Contains(g, "verifharness/") && !strings.Contains(g, "glyph/pkg/vm.") && !strings.Contains(g, "glyph/pkg/interpreter.")
+		for _, ig := range ignore {
+			if strings.Contains(g, ig) {
+				skip = true
+			}
+		}
+		// the goroutine running the check itself (test -> rapid -> check) is not a leftover
+		if strings.Contains(g, "testing.tRunner") || strings.Contains(g, "runtime.Stack") {
+			skip = true
+		}
+		if !skip {
+			out = append(out, g)
+		}
+	}
+	return out
+}
+
 // Stretch scales a time budget by how starved this machine is. Every time budget in the checks
 // is a multiple of what the operation needs on an idle machine; when 100 runnable processes share
 // 16 cores everything takes load/cores times longer, and a verdict such as "still blocked after
